@@ -70,7 +70,10 @@ def epoch_len(cfg: Dict[str, Any]) -> int:
 
     if sdl.is_iter(cfg):
         return sum(nb(s) for s in cfg["sizes"])
-    return nb(cfg["n"])
+    n = cfg["n"]
+    if cfg.get("sampler_len") is not None and cfg.get("sampler") in ("custom_plain", "custom_stateful"):
+        n = min(n, cfg["sampler_len"])  # a user sampler over a subset of the dataset
+    return nb(n)
 
 
 # ------------------------------------------------------------------------------------------------
